@@ -96,6 +96,10 @@ def get_sparse_operator(operator: PauliRepresentation, n_qubits: Optional[int] =
         column_list.append(column)
         row_list.append(row)
 
+    # The zero operator (empty sum) has no terms to concatenate.
+    if not values_list:
+        return scipy.sparse.csc_matrix((n_hilbert, n_hilbert), dtype=complex)
+
     # Create sparse operator.
     values_list = numpy.concatenate(values_list)
     row_list = numpy.concatenate(row_list)
